@@ -5,8 +5,8 @@ from common import close, rng
 import estgen
 
 LEAN_MODULE = 'PGM.Properties.C10'
-LEAN_EXTRA = ['PGM.Properties.C10G']
-TRANSLATORS = ('py2est',)     # Factor.active, the zero loop of __init__ and _setup regenerated -> Generated/EstimateG.lean, identified with the definitions of Proofs/ZerosSem.lean
+LEAN_EXTRA = ['PGM.Properties.C10G', 'PGM.Properties.C10E']
+TRANSLATORS = ('py2est', 'py2inf', 'py2gm', 'py2jt', 'py2gminit', 'py2gmq')     # C10E composes the generated solvers, belief_propagation and __init__; Factor.active, the zero loop of __init__ and _setup regenerated -> Generated/EstimateG.lean, identified with the definitions of Proofs/ZerosSem.lean
 TRUSTED = ['Lean 4.33 kernel', 'axioms: propext, Classical.choice, Quot.sound',
            'hand models of Factor.active, CliqueVector.combine and the solvers\' parameter updates (PGM/Model/Solvers.lean) tied to inference.py / clique_vector.py / factor.py by the C08 and C14 correspondence runs',
            'numeric meaning of zero: |mass| <= 1e-80 * total (the refit mle adds 1e-100 inside log, so RDA/IG out-of-clique answers at declared cells are ~1e-100*total, never exactly 0)']
